@@ -854,8 +854,13 @@ regp_recv(RegP *p, RPMaybeFrame *mf)
         return early_ebusy(p, &fb);
     case ENOMEM:
         /* Send ERXOVERFLOW reply, based on fallback buffer */
-        byte_buffer_rewind(&fb);
-        byte_buffer_add(&fb, mf->frame->raw.memory, RP_HEADER_SIZE);
+        {
+            /* The raw frame starts behind the RPFrame instance in the block;
+             * the RPFrame members have not been filled in at this point. */
+            const size_t have = cs.buffer.used - sizeof(RPFrame);
+            byte_buffer_add(&fb, cs.buffer.data + sizeof(RPFrame),
+                            have < RP_HEADER_SIZE ? have : RP_HEADER_SIZE);
+        }
         return early_erxoverflow(p, &fb);
     default:
         /* Unexpected error. Really shouldn't happen. */
